@@ -249,16 +249,26 @@ def _visits(spec, arrival=None, out=None):
     return out
 
 
-def _build(spec, Routes, RoutingTree):
+def _build(spec, Routes, RoutingTree, style="bottom-up"):
+    """style: "bottom-up" -- a node is made with its complete list of
+    children; "top-down" -- with the caller's still empty list, filled
+    afterwards through the caller's reference; "append" -- without a list,
+    filled through node.children."""
     chip, children = spec
     kids = []
+    node = None
+    if style == "top-down":
+        node = RoutingTree(chip, kids)
+    elif style == "append":
+        node = RoutingTree(chip)
+        kids = node.children
     for r, child in children:
         route = None if r is None else _route(r, Routes)
         if child is V:
             kids.append((route, object()))
         else:
-            kids.append((route, _build(child, Routes, RoutingTree)))
-    return RoutingTree(chip, kids)
+            kids.append((route, _build(child, Routes, RoutingTree, style)))
+    return node if node is not None else RoutingTree(chip, kids)
 
 
 class _Net(object):
@@ -269,7 +279,7 @@ class _Net(object):
         return "net%d" % self.i
 
 
-def h_trees(ctx, scenario):
+def h_trees(ctx, scenario, styles=("bottom-up",)):
     from rig.place_and_route.routing_tree import RoutingTree
     from rig.routing_table import (Routes, MultisourceRouteError,
                                    RoutingTableEntry)
@@ -311,7 +321,9 @@ def h_trees(ctx, scenario):
                     slot[c] = (deps, {src})
 
     nets = [_Net(i) for i in range(n)]
-    routes = OrderedDict((nets[i], _build(specs[i], Routes, RoutingTree))
+    style = ctx.pick(list(styles))
+    routes = OrderedDict((nets[i], _build(specs[i], Routes, RoutingTree,
+                                          style))
                          for i in order)
     net_keys = {nets[i]: km[i] for i in range(n)}
     try:
@@ -1211,6 +1223,11 @@ def _units(tier, seed):
                        split=3 if len(SCENARIOS[name]) > 2 else 0,
                        witnesses=("tables", "all-distinct",
                                   "shared-key-mask") + wit[name]))
+    # the same trees put together top-down (a node made with the caller's
+    # still empty list of children) or through node.children
+    us.append(Unit("trees chain5, built top-down / by appending", h_trees,
+                   dict(scenario="chain5", styles=("top-down", "append")),
+                   witnesses=("tables", "merged")))
     us.append(Unit("load entries", h_load,
                    dict(counts=(0, 1, 2, 3), menu=m, via="entries",
                         bufsizes=(256,) if q else (256, 24)), split=2,
